@@ -58,6 +58,49 @@ def next_ptr(p, n=1):
     return BASE + ((p - BASE) // 2 + n) % RING * 2
 
 
+class KeyTraps(object):
+    """
+    Which key events a running program's KEY traps take away from the keyboard buffer (GW-BASIC manual, KEY(n) and
+    KEY n,CHR$(flags)+CHR$(scancode)): a trap with a handler line (ON KEY(n) GOSUB) that is ON swallows exactly its
+    own key; every other key event reaches the buffer. KEY 1..10 = F1..F10, 11..14 = cursor up, left, right, down -
+    whatever the shift state; KEY 15..20 = user-defined scan code together with exactly the given shift state
+    (flags &H01/&H02/&H03 any Shift key, &H04 Ctrl, &H08 Alt).
+    An event is (character, scan code, modifiers) with modifiers a string over 'S' 'C' 'A'.
+    """
+    PREDEFINED = dict([(n, 0x3a + n) for n in range(1, 11)] + [(11, 0x48), (12, 0x4b), (13, 0x4d), (14, 0x50)])
+
+    def __init__(self):
+        self.user = {}          # 15..20 -> (flags, scan)
+        self.handler = set()    # ON KEY(n) GOSUB given
+        self.on = set()
+
+    def define(self, n, flags, scan):
+        self.user[n] = (flags, scan)
+
+    @staticmethod
+    def _flags(mods):
+        return (3 if 'S' in mods else 0) | (4 if 'C' in mods else 0) | (8 if 'A' in mods else 0)
+
+    def matches(self, n, event):
+        scan = event[1]
+        mods = event[2] if len(event) > 2 else ''
+        if n in self.PREDEFINED:
+            return scan == self.PREDEFINED[n]
+        if n in self.user:
+            flags, tscan = self.user[n]
+            if flags & 3:
+                flags |= 3
+            return scan == tscan and self._flags(mods) == flags
+        return False
+
+    def firing(self, events):
+        """Traps (ON, with handler) whose key is among the events."""
+        return sorted(n for n in self.on & self.handler if any(self.matches(n, e) for e in events))
+
+    def swallows(self, event):
+        return any(self.matches(n, event) for n in self.on & self.handler)
+
+
 class Kbd(object):
 
     def __init__(self):
